@@ -102,8 +102,8 @@ def progD17 : Program :=
 def progD40 : Program :=
   oneFileProg true [.struct .struct (nm "S") [⟨some 1, nm "f", .optional, .ref (nm "S"), some (.map [])⟩]]
 
-/-- D41: `struct S {1: optional T t; 2: optional E e = 1}  struct T {1: optional S s = {}}  enum E {X = 1}` -/
-def progD41 : Program :=
+/-- D50: `struct S {1: optional T t; 2: optional E e = 1}  struct T {1: optional S s = {}}  enum E {X = 1}` -/
+def progD50 : Program :=
   oneFileProg true [
     .struct .struct (nm "S") [⟨some 1, nm "t", .optional, .ref (nm "T"), none⟩,
                               ⟨some 2, nm "e", .optional, .ref (nm "E"), some (.int 1)⟩],
